@@ -420,7 +420,7 @@ def configs(tier, seed):
     def names(space, *want):
         return [n for n in want if n in ref.P2E[space]]
 
-    ALLP = ("none", "empty", "one-empty", "partial", "dups", "full", "offgrid", "ongrid", "castable")
+    ALLP = ("none", "empty", "one-empty", "partial", "dups", "full", "offgrid", "ongrid", "castable", "onbound")
 
     # ---- A. finite spaces, explored until the searcher answers None twice (T = size + 2)
     for kind in ("fifo-random", "fifo-grid", "fifo-bo-rand", "hb-stop-random", "hb-prom-random", "hb-stop-bo-rand",
@@ -495,6 +495,13 @@ def configs(tier, seed):
                         continue
                     out.append(_mk(kind, space, p, seed=sd, W=2, F=1, T=min(size + 2, 7), D=12 if q else 14,
                                    tv=sd % 2, max_states=1500 if q else 3000))
+    # initial points exactly on the bounds of log-scaled domains: DEHB passes them through its encoder, the GP searchers
+    # through theirs; what comes back must still be a member of the domain
+    for kind in ("dehb", "dehb-nopr", "fifo-random", "fifo-bo-rand", "hb-prom-bo-rand"):
+        for p in ("onbound", "none"):
+            if p == "none" and (q or not kind.startswith("dehb")):
+                continue
+            out.append(_mk(kind, "logb", p, seed=0, W=2, F=1, T=5, D=10, max_states=600 if q else 2000))
     # ---- D. GP searchers with the real BO path (model fit + acquisition optimisation), small depth
     gp_spaces = ("fin6", "inf") if q else ("fin6", "fin9", "inf", "mix", "degen")
     for kind in ("fifo-bo", "hb-stop-bo", "hb-prom-bo", "hb-stop-hypertune", "hb-prom-hypertune"):
